@@ -147,8 +147,10 @@ fn main() {
                         let mut ev = Vec::new();
                         let pool = rayon::ThreadPoolBuilder::new().num_threads(threads).build().unwrap();
                         pool.install(|| exec::run_history(&probe, 0, &exec::RunCfg { observe: false, sides: false, ..Default::default() }, &mut ev));
-                        let polls = ev.iter().rev().find(|e| e["ev"] == "Build").map(|e| e["polls"].as_u64().unwrap()).unwrap_or(0);
-                        hs.push(gen2::cancel_history(s, Some(polls), thorough));
+                        let last = ev.iter().rev().find(|e| e["ev"] == "Build");
+                        let polls = last.map(|e| e["polls"].as_u64().unwrap()).unwrap_or(0);
+                        let bounds: Vec<u64> = last.and_then(|e| e["steps"].as_array()).map(|a| a.iter().map(|x| x[1].as_u64().unwrap_or(0)).collect()).unwrap_or_default();
+                        hs.push(gen2::cancel_history_at(s, Some(polls), thorough, &bounds));
                     }
                     "faults" => {
                         hs.extend(gen2::mapfull_histories(s));
